@@ -5,6 +5,7 @@ import (
 	"time"
 
 	"simlens/plan"
+	"simlens/simnet"
 	"simlens/simrt"
 
 	"github.com/siglens/siglens/pkg/config"
@@ -90,5 +91,19 @@ func init() {
 		prefix, _ := op.Args["prefix"].(string)
 		n := simrt.Stall(prefix, time.Duration(op.DurMs)*time.Millisecond)
 		return map[string]interface{}{"stalled": n}, nil
+	}
+}
+
+func init() {
+	extra["deliveries"] = func(op *plan.Op) (interface{}, error) {
+		return map[string]interface{}{"deliveries": simnet.Deliveries()}, nil
+	}
+	extra["fail_deliveries"] = func(op *plan.Op) (interface{}, error) {
+		n := 0
+		if v, ok := op.Args["n"].(float64); ok {
+			n = int(v)
+		}
+		simnet.FailDeliveries(n)
+		return nil, nil
 	}
 }
